@@ -98,6 +98,7 @@ class Interp(ExprMixin, StmtMixin):
         c.owner = owner
         if isinstance(node, ast.FunctionDef):
             self.fn_nodes[qualname] = node
+            c.memoised = any("cache" in ast.unparse(d) for d in node.decorator_list)
         return c
 
     def make_class(self, node, env, qualname, module):
@@ -191,6 +192,10 @@ class Interp(ExprMixin, StmtMixin):
                     self.assumed_used.add(f"{st.name}: {st.assumed}")
                 a2 = ([f.self_obj] if f.self_obj is not None else []) + list(args)
                 return st.fn(self, path, a2, kwargs)
+            if getattr(f, "memoised", False) and not getattr(f, "_no_stub", False):
+                h = self.hooks.get("memo_call")
+                if h is not None:
+                    h(self, path, f, args, kwargs)
             return self.call_closure(f, args, kwargs, path)
         if isinstance(f, ClassVal):
             return self.instantiate(f, args, kwargs, path)
@@ -492,7 +497,9 @@ class Interp(ExprMixin, StmtMixin):
                     fn = self.make_function(node, env, qualname, mod)
             if not isinstance(fn, Closure):
                 raise Unsupported(f"{qualname} did not resolve to a function: {fn!r}")
+            memo = getattr(fn, "memoised", False)
             fn = Closure(fn.node, fn.env, fn.qualname, fn.module, fn.self_obj, fn.defaults)
+            fn.memoised = memo
             fn.owner = owner
             fn._no_stub = True
             made = make_args(self, path)
